@@ -7,6 +7,8 @@ import DateutilVerif.Proofs.RRuleStrWhole
 namespace RRuleStr
 open ICal (isSpace upper splitOnChar pyInt rstrip strip isDigit splitLines)
 
+variable {po : ParseOpts}
+
 /-- a content line without parameters -/
 inductive Line where
   | rrule (v : List Char) | exrule (v : List Char) | rdate (v : List Char) | exdate (v : List Char) | dtstart (v : List Char)
@@ -27,15 +29,15 @@ def Line.ok : Line → Prop
 instance : DecidablePred Line.ok := fun l => by cases l <;> unfold Line.ok <;> infer_instance
 
 /-- what the dispatch loop of `_parse_rfc` does with the line -/
-def Line.collect (acc : Acc) : Line → Acc
+def Line.collect (po : ParseOpts) (acc : Acc) : Line → Acc
   | .rrule v => { acc with rrulevals := acc.rrulevals ++ [v] }
   | .exrule v => { acc with exrulevals := acc.exrulevals ++ [v] }
   | .rdate v => { acc with rdatevals := acc.rdatevals ++ [v] }
-  | .exdate v => { acc with exdatevals := acc.exdatevals ++ (splitOnChar ',' v).map (fun d => (d, [])) }
-  | .dtstart v => { acc with dtstart := some (v, []) }
+  | .exdate v => { acc with exdatevals := acc.exdatevals ++ (splitOnChar ',' v).map (fun d => (d, [], po)) }
+  | .dtstart v => { acc with dtstart := some (v, [], po) }
 
 theorem stepLine_exrule (acc : Acc) (v : List Char) :
-    stepLine acc (lit "EXRULE" ++ ':' :: v) = .ok { acc with exrulevals := acc.exrulevals ++ [v] } := by
+    stepLine po acc (lit "EXRULE" ++ ':' :: v) = .ok { acc with exrulevals := acc.exrulevals ++ [v] } := by
   have h1 : (lit "EXRULE" ++ ':' :: v).isEmpty = false := rfl
   have h2 : (lit "EXRULE" ++ ':' :: v).contains ':' = true := by rw [contains_iff]; simp
   have h3 := splitColon1_two (lit "EXRULE") v (by decide)
@@ -45,7 +47,7 @@ theorem stepLine_exrule (acc : Acc) (v : List Char) :
   simp [lit]
 
 theorem stepLine_rdate (acc : Acc) (v : List Char) :
-    stepLine acc (lit "RDATE" ++ ':' :: v) = .ok { acc with rdatevals := acc.rdatevals ++ [v] } := by
+    stepLine po acc (lit "RDATE" ++ ':' :: v) = .ok { acc with rdatevals := acc.rdatevals ++ [v] } := by
   have h1 : (lit "RDATE" ++ ':' :: v).isEmpty = false := rfl
   have h2 : (lit "RDATE" ++ ':' :: v).contains ':' = true := by rw [contains_iff]; simp
   have h3 := splitColon1_two (lit "RDATE") v (by decide)
@@ -55,8 +57,8 @@ theorem stepLine_rdate (acc : Acc) (v : List Char) :
   simp [lit]
 
 theorem stepLine_exdate (acc : Acc) (v : List Char) :
-    stepLine acc (lit "EXDATE" ++ ':' :: v) =
-      .ok { acc with exdatevals := acc.exdatevals ++ (splitOnChar ',' v).map (fun d => (d, [])) } := by
+    stepLine po acc (lit "EXDATE" ++ ':' :: v) =
+      .ok { acc with exdatevals := acc.exdatevals ++ (splitOnChar ',' v).map (fun d => (d, [], po)) } := by
   have h1 : (lit "EXDATE" ++ ':' :: v).isEmpty = false := rfl
   have h2 : (lit "EXDATE" ++ ':' :: v).contains ':' = true := by rw [contains_iff]; simp
   have h3 := splitColon1_two (lit "EXDATE") v (by decide)
@@ -65,7 +67,7 @@ theorem stepLine_exdate (acc : Acc) (v : List Char) :
   simp only [h1, Bool.false_eq_true, if_false, h2, Bool.not_true, h3, h4]
   simp [lit, dateParmsOk, bind, Except.bind]
 
-theorem stepLine_render (acc : Acc) (l : Line) (h : l.ok) : stepLine acc l.render = .ok (l.collect acc) := by
+theorem stepLine_render (acc : Acc) (l : Line) (h : l.ok) : stepLine po acc l.render = .ok (l.collect po acc) := by
   cases l with
   | rrule v => exact stepLine_rrule acc v
   | exrule v => exact stepLine_exrule acc v
@@ -74,7 +76,7 @@ theorem stepLine_render (acc : Acc) (l : Line) (h : l.ok) : stepLine acc l.rende
   | dtstart v => exact stepLine_dtstart acc v h
 
 theorem foldlM_stepLine_render : ∀ (ls : List Line) (acc : Acc), (∀ l ∈ ls, l.ok) →
-    (ls.map Line.render).foldlM stepLine acc = .ok (ls.foldl Line.collect acc)
+    (ls.map Line.render).foldlM (stepLine po) acc = .ok (ls.foldl (Line.collect po) acc)
   | [], _, _ => rfl
   | l :: ls, acc, h => by
     rw [List.map_cons, List.foldlM_cons, stepLine_render acc l (h l (by simp))]
@@ -85,28 +87,28 @@ theorem foldlM_stepLine_render : ∀ (ls : List Line) (acc : Acc), (∀ l ∈ ls
 def rruleVals (ls : List Line) : List (List Char) := ls.filterMap (fun l => match l with | .rrule v => some v | _ => none)
 def exruleVals (ls : List Line) : List (List Char) := ls.filterMap (fun l => match l with | .exrule v => some v | _ => none)
 def rdateVals (ls : List Line) : List (List Char) := ls.filterMap (fun l => match l with | .rdate v => some v | _ => none)
-def exdateVals (ls : List Line) : List (List Char × List (List Char)) :=
-  (ls.map (fun l => match l with | .exdate v => (splitOnChar ',' v).map (fun d => (d, ([] : List (List Char)))) | _ => [])).flatten
+def exdateVals (po : ParseOpts) (ls : List Line) : List DateV :=
+  (ls.map (fun l => match l with | .exdate v => (splitOnChar ',' v).map (fun d => (d, ([] : List (List Char)), po)) | _ => [])).flatten
 /-- the last DTSTART wins -/
-def dtstartOf (ls : List Line) : Option (List Char × List (List Char)) :=
-  ls.foldl (fun cur l => match l with | .dtstart v => some (v, []) | _ => cur) none
+def dtstartOf (po : ParseOpts) (ls : List Line) : Option DateV :=
+  ls.foldl (fun cur l => match l with | .dtstart v => some (v, [], po) | _ => cur) none
 
 theorem collect_all : ∀ (ls : List Line) (acc : Acc),
-    ls.foldl Line.collect acc =
+    ls.foldl (Line.collect po) acc =
       { rrulevals := acc.rrulevals ++ rruleVals ls, exrulevals := acc.exrulevals ++ exruleVals ls,
-        rdatevals := acc.rdatevals ++ rdateVals ls, exdatevals := acc.exdatevals ++ exdateVals ls,
-        dtstart := ls.foldl (fun cur l => match l with | .dtstart v => some (v, []) | _ => cur) acc.dtstart }
+        rdatevals := acc.rdatevals ++ rdateVals ls, exdatevals := acc.exdatevals ++ exdateVals po ls,
+        dtstart := ls.foldl (fun cur l => match l with | .dtstart v => some (v, [], po) | _ => cur) acc.dtstart }
   | [], acc => by simp [rruleVals, exruleVals, rdateVals, exdateVals]
   | l :: ls, acc => by
     rw [List.foldl_cons, collect_all ls]
     cases l <;> simp [Line.collect, rruleVals, exruleVals, rdateVals, exdateVals]
 
 /-- the collected lines -/
-def accOf (ls : List Line) : Acc :=
-  { rrulevals := rruleVals ls, exrulevals := exruleVals ls, rdatevals := rdateVals ls, exdatevals := exdateVals ls,
-    dtstart := dtstartOf ls }
+def accOf (po : ParseOpts) (ls : List Line) : Acc :=
+  { rrulevals := rruleVals ls, exrulevals := exruleVals ls, rdatevals := rdateVals ls, exdatevals := exdateVals po ls,
+    dtstart := dtstartOf po ls }
 
-theorem collect_all_empty (ls : List Line) : ls.foldl Line.collect {} = accOf ls := by
+theorem collect_all_empty (ls : List Line) : ls.foldl (Line.collect po) {} = accOf po ls := by
   rw [collect_all]; simp [dtstartOf, accOf]
 
 /-! ### when a set is built, and with which members -/
@@ -121,36 +123,37 @@ theorem shortcut_two (s : List Char) (lines : List (List Char)) (f : Bool) (h : 
   simp [shortcut, h]
 
 /-- past the shortcut, with the lines collected: a set exactly when `wantsSet` -/
-theorem parseLines_collected {s : List Char} {lines : List (List Char)} {f : Bool} {acc : Acc} (c kw : Bool)
-    (hs : shortcut s lines f = false) (hfold : lines.foldlM stepLine {} = .ok acc) :
-    parseLines s lines f c kw =
-      if wantsSet f acc then buildSet acc c kw
+theorem parseLines_collected {s : List Char} {lines : List (List Char)} {f : Bool} {acc : Acc} (c kw cache : Bool)
+    (hs : shortcut s lines f = false) (hfold : lines.foldlM (stepLine po) {} = .ok acc) :
+    parseLines po cache s lines f c kw =
+      if wantsSet f acc then buildSet po acc c kw cache
       else match acc.rrulevals with
-        | v :: _ => buildRule v acc.dtstart
+        | v :: _ => buildRule po v acc.dtstart cache
         | [] => .error .ValueError := by
   unfold parseLines
   rw [if_neg (by unfold shortcut at hs; rw [hs]; simp), hfold]
   rfl
 
-/-- the set the model builds from structured lines: every RRULE and EXRULE value parsed in order, the RDATE values split
-    at `,`, the EXDATE values, the last DTSTART, and the `compatible` flag (DTSTART is added as an RDATE) -/
-def setOf (ls : List Line) (compatible kw : Bool) : Py.R Parsed := do
-  let rr ← (rruleVals ls).mapM ruleOf
-  let ex ← (exruleVals ls).mapM ruleOf
-  .ok (.set rr ex ((rdateVals ls).map (splitOnChar ',')).flatten (exdateVals ls) (dtstartOf ls)
-        (compatible && ((dtstartOf ls).isSome || kw)))
+/-- the set the model builds from structured lines: every RRULE and EXRULE value parsed in order (with the options), the
+    RDATE values split at `,` (each with the options), the EXDATE values, the last DTSTART, the `compatible` flag (DTSTART
+    is added as an RDATE), and `cache` on the set -/
+def setOf (po : ParseOpts) (ls : List Line) (compatible kw cache : Bool) : Py.R Parsed := do
+  let rr ← (rruleVals ls).mapM (ruleOf po)
+  let ex ← (exruleVals ls).mapM (ruleOf po)
+  .ok (.set rr ex (((rdateVals ls).map (splitOnChar ',')).flatten.map (fun d => (d, po))) (exdateVals po ls) (dtstartOf po ls)
+        (compatible && ((dtstartOf po ls).isSome || kw)) cache)
 
 /-- `multi_line_builds_set`: two or more RRULE lines, or any RDATE / EXRULE / EXDATE line, or `forceset`, give the set with
     exactly those members in order -/
-theorem parseLines_builds_set (s : List Char) (ls : List Line) (hok : ∀ l ∈ ls, l.ok) (f c kw : Bool)
+theorem parseLines_builds_set (s : List Char) (ls : List Line) (hok : ∀ l ∈ ls, l.ok) (f c kw cache : Bool)
     (hs : shortcut s (ls.map Line.render) f = false)
-    (hset : f = true ∨ 2 ≤ (rruleVals ls).length ∨ rdateVals ls ≠ [] ∨ exruleVals ls ≠ [] ∨ exdateVals ls ≠ []) :
-    parseLines s (ls.map Line.render) f c kw = setOf ls c kw := by
-  have hfold := foldlM_stepLine_render ls {} hok
+    (hset : f = true ∨ 2 ≤ (rruleVals ls).length ∨ rdateVals ls ≠ [] ∨ exruleVals ls ≠ [] ∨ exdateVals po ls ≠ []) :
+    parseLines po cache s (ls.map Line.render) f c kw = setOf po ls c kw cache := by
+  have hfold := foldlM_stepLine_render (po := po) ls {} hok
   rw [collect_all_empty] at hfold
-  rw [parseLines_collected c kw hs hfold]
-  have hw : wantsSet f (accOf ls) = true := by
-    simp only [wantsSet, accOf, Bool.or_eq_true, decide_eq_true_eq, Bool.not_eq_true', List.isEmpty_eq_false_iff]
+  rw [parseLines_collected c kw cache hs hfold]
+  have hw : wantsSet f (accOf po ls) = true := by
+    simp only [wantsSet, accOf, Bool.or_eq_true, Bool.not_eq_true', List.isEmpty_eq_false_iff]
     rcases hset with h | h | h | h | h
     · exact Or.inl (Or.inl (Or.inl (Or.inl h)))
     · exact Or.inl (Or.inl (Or.inl (Or.inr (by simp; omega))))
@@ -161,49 +164,52 @@ theorem parseLines_builds_set (s : List Char) (ls : List Line) (hok : ∀ l ∈ 
   rfl
 
 /-- one RRULE line and only DTSTART lines besides it, no `forceset`: a single rule with the last DTSTART -/
-theorem parseLines_builds_rule (s : List Char) (ls : List Line) (hok : ∀ l ∈ ls, l.ok) (c kw : Bool) (v : List Char)
+theorem parseLines_builds_rule (s : List Char) (ls : List Line) (hok : ∀ l ∈ ls, l.ok) (c kw cache : Bool) (v : List Char)
     (hs : shortcut s (ls.map Line.render) false = false)
-    (hr : rruleVals ls = [v]) (h1 : rdateVals ls = []) (h2 : exruleVals ls = []) (h3 : exdateVals ls = []) :
-    parseLines s (ls.map Line.render) false c kw = buildRule v (dtstartOf ls) := by
-  have hfold := foldlM_stepLine_render ls {} hok
+    (hr : rruleVals ls = [v]) (h1 : rdateVals ls = []) (h2 : exruleVals ls = []) (h3 : exdateVals po ls = []) :
+    parseLines po cache s (ls.map Line.render) false c kw = buildRule po v (dtstartOf po ls) cache := by
+  have hfold := foldlM_stepLine_render (po := po) ls {} hok
   rw [collect_all_empty] at hfold
-  rw [parseLines_collected c kw hs hfold]
-  have hw : wantsSet false (accOf ls) = false := by
+  rw [parseLines_collected c kw cache hs hfold]
+  have hw : wantsSet false (accOf po ls) = false := by
     simp [wantsSet, accOf, hr, h1, h2, h3]
   rw [if_neg (by rw [hw]; simp)]
   simp only [accOf, hr]
 
 /-! ### `forceset`, `compatible` -/
 
-theorem buildSet_is_set {acc : Acc} {c kw : Bool} {r : Parsed} (h : buildSet acc c kw = .ok r) :
-    ∃ rr ex, acc.rrulevals.mapM ruleOf = .ok rr ∧ acc.exrulevals.mapM ruleOf = .ok ex ∧
-      r = .set rr ex ((acc.rdatevals.map (splitOnChar ',')).flatten) acc.exdatevals acc.dtstart (c && (acc.dtstart.isSome || kw)) := by
+theorem buildSet_is_set {acc : Acc} {c kw cache : Bool} {r : Parsed} (h : buildSet po acc c kw cache = .ok r) :
+    ∃ rr ex, acc.rrulevals.mapM (ruleOf po) = .ok rr ∧ acc.exrulevals.mapM (ruleOf po) = .ok ex ∧
+      r = .set rr ex (((acc.rdatevals.map (splitOnChar ',')).flatten).map (fun d => (d, po))) acc.exdatevals acc.dtstart
+            (c && (acc.dtstart.isSome || kw)) cache := by
   unfold buildSet at h
-  cases h1 : acc.rrulevals.mapM ruleOf with
+  cases h1 : acc.rrulevals.mapM (ruleOf po) with
   | error e => rw [h1] at h; cases h
   | ok rr =>
-    cases h2 : acc.exrulevals.mapM ruleOf with
+    cases h2 : acc.exrulevals.mapM (ruleOf po) with
     | error e => rw [h1, h2] at h; cases h
     | ok ex => rw [h1, h2] at h; cases h; exact ⟨rr, ex, rfl, rfl, rfl⟩
 
 /-- with `forceset` the result, when there is one, is always a set: the collected lines' members in order -/
-theorem parseLines_forceset {s : List Char} {lines : List (List Char)} {c kw : Bool} {r : Parsed}
-    (h : parseLines s lines true c kw = .ok r) :
-    ∃ acc rr ex, lines.foldlM stepLine {} = .ok acc ∧ acc.rrulevals.mapM ruleOf = .ok rr ∧ acc.exrulevals.mapM ruleOf = .ok ex ∧
-      r = .set rr ex ((acc.rdatevals.map (splitOnChar ',')).flatten) acc.exdatevals acc.dtstart (c && (acc.dtstart.isSome || kw)) := by
-  cases hf : lines.foldlM stepLine {} with
+theorem parseLines_forceset {s : List Char} {lines : List (List Char)} {c kw cache : Bool} {r : Parsed}
+    (h : parseLines po cache s lines true c kw = .ok r) :
+    ∃ acc rr ex, lines.foldlM (stepLine po) {} = .ok acc ∧ acc.rrulevals.mapM (ruleOf po) = .ok rr ∧
+      acc.exrulevals.mapM (ruleOf po) = .ok ex ∧
+      r = .set rr ex (((acc.rdatevals.map (splitOnChar ',')).flatten).map (fun d => (d, po))) acc.exdatevals acc.dtstart
+            (c && (acc.dtstart.isSome || kw)) cache := by
+  cases hf : lines.foldlM (stepLine po) {} with
   | error e =>
     unfold parseLines at h
     rw [if_neg (by simp), hf] at h; cases h
   | ok acc =>
-    rw [parseLines_collected c kw (shortcut_forceset s lines) hf, if_pos (by simp [wantsSet])] at h
+    rw [parseLines_collected c kw cache (shortcut_forceset s lines) hf, if_pos (by simp [wantsSet])] at h
     obtain ⟨rr, ex, h1, h2, h3⟩ := buildSet_is_set h
     exact ⟨acc, rr, ex, rfl, h1, h2, h3⟩
 
 /-- `forceset=True` never yields a bare rule -/
 theorem parseRfc_forceset {s : List Char} {o : Opts} {kw : Bool} {r : Parsed} (ho : o.forceset = true ∨ o.compatible = true)
     (h : parseRfc s o kw = .ok r) :
-    ∃ rr ex rd exd dt, r = .set rr ex rd exd dt (o.compatible && (dt.isSome || kw)) := by
+    ∃ rr ex rd exd dt, r = .set rr ex rd exd dt (o.compatible && (dt.isSome || kw)) o.cache := by
   unfold parseRfc at h
   simp only [] at h
   split at h
@@ -215,17 +221,18 @@ theorem parseRfc_forceset {s : List Char} {o : Opts} {kw : Bool} {r : Parsed} (h
 
 /-- `compatible=True` is `forceset=True, unfold=True` plus the DTSTART-as-RDATE flag -/
 theorem parseRfc_compatible (s : List Char) (o : Opts) (kw : Bool) (hc : o.compatible = true) :
-    parseRfc s o kw = parseRfc s { unfold := true, forceset := true, compatible := true } kw := by
+    parseRfc s o kw = parseRfc s { o with unfold := true, forceset := true } kw := by
   unfold parseRfc
-  simp [hc]
+  simp [hc, Opts.po]
 
 /-- the flag: set exactly when `compatible` and a start is known (a DTSTART line or the `dtstart=` keyword) -/
-theorem parseLines_compatible_flag (s : List Char) (ls : List Line) (hok : ∀ l ∈ ls, l.ok) (kw : Bool) :
-    parseLines s (ls.map Line.render) true true kw = (do
-      let rr ← (rruleVals ls).mapM ruleOf
-      let ex ← (exruleVals ls).mapM ruleOf
-      .ok (.set rr ex ((rdateVals ls).map (splitOnChar ',')).flatten (exdateVals ls) (dtstartOf ls) ((dtstartOf ls).isSome || kw))) := by
-  rw [parseLines_builds_set s ls hok true true kw (shortcut_forceset _ _) (Or.inl rfl)]
+theorem parseLines_compatible_flag (s : List Char) (ls : List Line) (hok : ∀ l ∈ ls, l.ok) (kw cache : Bool) :
+    parseLines po cache s (ls.map Line.render) true true kw = (do
+      let rr ← (rruleVals ls).mapM (ruleOf po)
+      let ex ← (exruleVals ls).mapM (ruleOf po)
+      .ok (.set rr ex (((rdateVals ls).map (splitOnChar ',')).flatten.map (fun d => (d, po))) (exdateVals po ls) (dtstartOf po ls)
+            ((dtstartOf po ls).isSome || kw) cache)) := by
+  rw [parseLines_builds_set s ls hok true true kw cache (shortcut_forceset _ _) (Or.inl rfl)]
   simp [setOf]
 
 /-! ### from the text to the lines (no `unfold`) -/
@@ -292,7 +299,7 @@ theorem parseRfc_lines (ls : List Line) (hne : ls ≠ [])
     (htext : ∀ l ∈ ls, ∀ c ∈ l.render, isLower c = false ∧ isSpace c = false)
     (o : Opts) (hu : o.unfold = false) (hc : o.compatible = false) (kw : Bool) :
     parseRfc (intercalate ['\n'] (ls.map Line.render)) o kw =
-      parseLines (intercalate ['\n'] (ls.map Line.render)) (ls.map Line.render) o.forceset false kw := by
+      parseLines o.po o.cache (intercalate ['\n'] (ls.map Line.render)) (ls.map Line.render) o.forceset false kw := by
   have hup : upper (intercalate ['\n'] (ls.map Line.render)) = intercalate ['\n'] (ls.map Line.render) := by
     apply upper_of_noLower
     intro c hc'
